@@ -357,6 +357,34 @@ fn make_tree(z: &Zones, cat: &[RefEntry]) -> Server<Cat> {
     fixtures::make_server(c, ServerCfg { name: "c07", edns_size: 1232, tsig: true, rrl: None })
 }
 
+/// The same catalog reached through a different history: one more entry
+/// (`extra`, not a key of `cat`) is inserted - before or after the others -
+/// and removed again. The server must behave exactly as over `make_tree`.
+fn make_tree_via_removal(z: &Zones, cat: &[RefEntry], extra: &RefEntry, extra_first: bool) -> Server<Cat> {
+    let mut c = Cat::new();
+    if extra_first {
+        c.insert(z.entry(extra));
+    }
+    for e in cat {
+        c.insert(z.entry(e));
+    }
+    if !extra_first {
+        c.insert(z.entry(extra));
+    }
+    c.remove(&qd::qname(&extra.name), Class::from(extra.class));
+    fixtures::make_server(c, ServerCfg { name: "c07", edns_size: 1232, tsig: true, rrl: None })
+}
+
+fn all_keys() -> Vec<(Vec<u8>, u16)> {
+    let mut keys = Vec::new();
+    for n in CAT_NAMES {
+        for &cl in CAT_CLASSES {
+            keys.push((wire::wname(n), cl));
+        }
+    }
+    keys
+}
+
 fn make_single(z: &Zones, e: &RefEntry) -> Server<SingleZoneCatalog<HashMapTreeZone, ()>> {
     fixtures::make_server(SingleZoneCatalog::new(z.entry(e)), ServerCfg { name: "c07", edns_size: 1232, tsig: true, rrl: None })
 }
@@ -383,14 +411,22 @@ pub fn run(ctx: Ctx) -> ! {
             std::process::exit(2);
         };
         let single = case["catalog_kind"].as_str() == Some("single") && cat.len() == 1;
-        let (class, v) = if single { evaluate(&make_single(&zones, &cat[0]), &cat, &r) } else { evaluate(&make_tree(&zones, &cat), &cat, &r) };
+        let via = case["catalog_kind"].as_str() == Some("tree-via-removal");
+        let (class, v) = if single {
+            evaluate(&make_single(&zones, &cat[0]), &cat, &r)
+        } else if via {
+            let extra = RefEntry { name: wire::wname(case["removed_entry"]["name"].as_str().unwrap_or(".")), class: case["removed_entry"]["class"].as_u64().unwrap_or(1) as u16, status: Status::NotYetLoaded };
+            evaluate(&make_tree_via_removal(&zones, &cat, &extra, case["removed_entry"]["inserted_first"].as_bool().unwrap_or(false)), &cat, &r)
+        } else {
+            evaluate(&make_tree(&zones, &cat), &cat, &r)
+        };
         eprintln!("replay: {class}");
         let mut l = ctx.local();
         l.tick();
         l.outcome(&class, || case.clone());
         if let Some((key, detail)) = v {
             eprintln!("replay: VIOLATED {key}: {detail}");
-            l.violation(&key, json!({"catalog": cat_json(&cat), "catalog_kind": if single { "single" } else { "tree" }, "request": hex(&bytes), "tp": tp.name(), "detail": detail}));
+            l.violation(&key, json!({"catalog": cat_json(&cat), "catalog_kind": case["catalog_kind"].clone(), "removed_entry": case["removed_entry"].clone(), "request": hex(&bytes), "tp": tp.name(), "detail": detail}));
         } else {
             eprintln!("replay: holds");
         }
@@ -452,6 +488,48 @@ pub fn run(ctx: Ctx) -> ! {
             }
         }
     });
+    // Non-initial states: every catalog of <= 2 entries reached through the
+    // insertion and removal of one more entry (each of the other keys, inserted
+    // first or last), queried with the undecorated UDP requests.
+    let keys = all_keys();
+    let plain: Vec<&Req> = reqs.iter().filter(|r| r.decor == "plain/udp").collect();
+    let mut via: Vec<(usize, usize, bool)> = Vec::new();
+    for (ci, cat) in cats.iter().enumerate() {
+        if cat.len() > 2 {
+            continue;
+        }
+        for (ki, (n, cl)) in keys.iter().enumerate() {
+            if cat.iter().any(|e| e.name == *n && e.class == *cl) {
+                continue;
+            }
+            via.push((ci, ki, false));
+            via.push((ci, ki, true));
+        }
+    }
+    ctx.par_for_each(&via, |l: &mut Local, &(ci, ki, first)| {
+        let cat = &cats[ci];
+        let extra = RefEntry { name: keys[ki].0.clone(), class: keys[ki].1, status: Status::NotYetLoaded };
+        let server = make_tree_via_removal(&zones, cat, &extra, first);
+        for r in &plain {
+            l.tick();
+            let (class, v) = evaluate(&server, cat, r);
+            let full = || {
+                json!({
+                    "catalog": cat_json(cat), "catalog_kind": "tree-via-removal",
+                    "removed_entry": {"name": wire::name_text(&extra.name), "class": extra.class, "inserted_first": first},
+                    "request": hex(&r.bytes), "tp": r.tp.name(), "decoration": r.decor, "opcode": r.opcode,
+                    "question": r.question.as_ref().map(|(n, ty, cl)| json!({"qname": wire::name_text(n), "qtype": ty, "qclass": cl})),
+                })
+            };
+            l.outcome(&format!("via-removal: {class}"), full);
+            if let Some((key, detail)) = v {
+                let mut cse = full();
+                cse["detail"] = detail;
+                l.violation(&key, cse);
+            }
+        }
+    });
+    ctx.set_extra("catalogs_via_removal", json!(via.len()));
     ctx.set_extra("catalogs_tree", json!(cats.len()));
     ctx.set_extra("catalogs_single_zone", json!(items.len() - cats.len()));
     ctx.set_extra("max_entries_per_catalog", json!(ctx.pick(3, 4)));
@@ -459,7 +537,7 @@ pub fn run(ctx: Ctx) -> ! {
     ctx.assume("qvlib::wire decoder is correct; TSIG-decorated requests are signed by qvlib::reftsig (self-tested against RFC vectors)");
     ctx.finish(
         "exploration",
-        "every catalog of <= 2 (quick) / <= 3 (thorough) entries over 5 nested names x 3 classes x {Loaded, NotYetLoaded, FailedToLoad} (tree catalog; singletons also as SingleZoneCatalog) x {QUERY x 14 QNAMEs x 9 QTYPEs x 6 QCLASSes x 5 decorations (plain, OPT, OPT+TSIG, extra records; UDP/TCP)} + {15 other opcodes x 25 shapes x 3 decorations}; oracle = statement's RCODE table over a longest-suffix catalog model, Loaded entries answer from their own marked zone",
+        "every catalog of <= 2 (quick) / <= 3 (thorough) entries over 5 nested names x 3 classes x {Loaded, NotYetLoaded, FailedToLoad} (tree catalog built by insertion; singletons also as SingleZoneCatalog; catalogs of <= 2 entries also reached by inserting - first or last - and removing each other key) x {QUERY x 14 QNAMEs x 9 QTYPEs x 6 QCLASSes x 5 decorations (plain, OPT, OPT+TSIG, extra records; UDP/TCP)} + {15 other opcodes x 25 shapes x 3 decorations}; oracle = statement's RCODE table over a longest-suffix catalog model, Loaded entries answer from their own marked zone",
         true,
     )
 }
